@@ -48,8 +48,8 @@ CHECKS = {
     'C20': dict(
         level='exploration',
         units=[U('^TestC20$', (8, 8000, 40), (16, 60000, 80)), U('^TestC20_LargeScale$', (2, 150), (4, 5000))],
-        essential_labels=['add-after-query', 'merge', 'duplicate-heavy', 'q-on-integer-rank', 'large-scale', 'batch:below-min'],
-        assumptions=COMMON_ASSUMPTIONS + ["rho=q*(n-1) is accepted evaluated exactly or in binary64 (they differ only within half an ulp of an integer)", "NaN q and Min/Max of an empty dataset are outside the statement and not exercised"],
+        essential_labels=['add-after-query', 'merge', 'duplicate-heavy', 'q-on-integer-rank', 'large-scale', 'batch:below-min', 'q:nan'],
+        assumptions=COMMON_ASSUMPTIONS + ["rho=q*(n-1) is accepted evaluated exactly or in binary64 (they differ only within half an ulp of an integer)", "Min/Max of an empty dataset are outside the statement and not exercised"],
     ),
     'C04': dict(
         level='exploration',
@@ -155,7 +155,7 @@ CHECKS = {
             U('^TestC18_Bytes$', (6, 60000), (8, 400000)),
             F('FuzzC18Bytes', 90),
         ],
-        essential_labels=['exhaustive:uvarint64', 'exhaustive:flags', 'len-class-boundary', 'float-nonfinite-or-negative', 'continuation-on-last-byte'],
+        essential_labels=['exhaustive:uvarint64', 'exhaustive:flags', 'len-class-boundary', 'float-nonfinite-or-negative', 'continuation-on-last-byte', 'dst:short-nonempty-small-capacity', 'dst:non-empty'],
         exhaustive_note='all byte strings of length 0..2 (65 793) x 2 trailing variants for each of the 5 decoders, and all 256 flag bytes, are enumerated completely on every run (counters exhaustive_*)',
         assumptions=COMMON_ASSUMPTIONS + ["reference codecs in harness/refdec were written from the doc comments of encoding.go/flag.go and share no code with the repository"],
     ),
